@@ -1,1 +1,1220 @@
-//! C06 - not built yet
+//! C06 - binding slots are allocated completely, contiguously and without overlap.
+//!
+//! Reference-model monitor + invariant monitor. Small programs made of global declarations (every
+//! bindable object kind x array length x explicit group x static sampler, mixed with globals that
+//! are not resources) are type checked by the real front end; then
+//!   (a) the real `Module::assign_api_bindings` is run for the four target configurations and the
+//!       default bind groups 0..2 (pipelines P0..P2 of the same text) and without pipeline, and
+//!   (b) the real `rssl::compile` is run for the same configurations and the reflection metadata is read.
+//! What comes back is compared field by field with `refbind`, a bump allocator written from the
+//! property text, and - independently of that model - checked for disjointness, absence of gaps,
+//! declaration order and completeness.
+
+use crate::json::Json;
+use crate::par::{self, guard};
+use crate::report::{Ctx, Report, Tier};
+use crate::rng::{hash_str, Rng};
+use crate::rs::{self, Front, Mode, Opts, Outcome, Tgt, ALL_TARGETS};
+use crate::CheckDef;
+use std::collections::BTreeMap;
+
+pub fn def() -> CheckDef {
+    CheckDef {
+        id: "C06",
+        salt: 0xC06,
+        rule: "a case is a sequence of global declarations; one declaration = (object kind: the 20 bindable object types incl. ConstantBuffer<T>, or a \
+               cbuffer block) x array {none,1,2,3} x explicit group {none,0,1,2} x static sampler or not (356 options). Sequences of length <= 2 are \
+               enumerated exhaustively (thorough: all 127093; quick: a deterministic, seed dependent 10% sample: one index out of every 10 consecutive ones); lengths 3-6 \
+               (the rest of the quantifier's 'up to 6') are covered by dense random sampling and lengths 7-12 by random sampling (half of the random cases each). \
+               Around and between the declarations globals that are not resources (static, static const, groupshared, plain constant, struct, function) are mixed in; \
+               random cases also vary the spelling of the group (register(spaceN) / register(xI, spaceN) / [[rssl::bind_group(N)]] / [[vk::binding(I, N)]]), language \
+               register indices, const, template arguments, array length expressions, several declarators per declaration, namespaces, [[rssl::bindless]] and the \
+               position of the entry point and pipelines. Unbounded arrays are excluded (quantifier); bind groups stay in 0..2 (groups >= 4 on Metal are C08's finding). \
+               Every case is observed through Module::assign_api_bindings for 4 target configurations x {P0,P1,P2 (DefaultBindGroup 0,1,2), no pipeline}; every 8th case also \
+               through rssl::compile (metadata) for the same 16 configurations. evaluations = executions of assign_api_bindings / compile that a monitor compared; \
+               distinct_nontrivial = distinct program texts with at least one bindable resource that the front end accepted",
+        assumptions: &[
+            "the harness maps a target to its AssignBindingsParams the way compile() does (rs::Tgt::binding_params); path (b) goes through the real mapping in src/compile.rs",
+            "declared names are reported unchanged in global_registry / cbuffer_registry / metadata (generated names are not reserved words and are unique)",
+            "what a declaration 'needs' is taken from the property text: 1 slot per array element, 2 per element for raw and structured buffers on Metal",
+        ],
+        min_distinct: (12_000, 150_000),
+        deadline_s: (60.0, 600.0),
+        run,
+        replay,
+    }
+}
+
+// ------------------------------------------------------------------------------------------------
+// The declared world (input of the reference model)
+// ------------------------------------------------------------------------------------------------
+
+#[derive(Clone, Copy, PartialEq, Eq, Debug, Hash, PartialOrd, Ord)]
+pub enum Kind {
+    Buffer,
+    RWBuffer,
+    ByteAddressBuffer,
+    RWByteAddressBuffer,
+    BufferAddress,
+    RWBufferAddress,
+    StructuredBuffer,
+    RWStructuredBuffer,
+    Texture2D,
+    Texture2DArray,
+    RWTexture2D,
+    RWTexture2DArray,
+    TextureCube,
+    TextureCubeArray,
+    Texture3D,
+    RWTexture3D,
+    ConstantBufferT,
+    SamplerState,
+    SamplerComparisonState,
+    RaytracingAccelerationStructure,
+    /// `cbuffer Name { ... }`
+    CBufferBlock,
+}
+
+use Kind::*;
+
+/// (kind, label, spellings of the type, HLSL register class)
+const KINDS: [(Kind, &str, &[&str], char); 21] = [
+    (Buffer, "Buffer", &["Buffer<float4>", "Buffer<uint>", "Buffer<float>"], 't'),
+    (RWBuffer, "RWBuffer", &["RWBuffer<float4>", "RWBuffer<uint>"], 'u'),
+    (ByteAddressBuffer, "ByteAddressBuffer", &["ByteAddressBuffer"], 't'),
+    (RWByteAddressBuffer, "RWByteAddressBuffer", &["RWByteAddressBuffer"], 'u'),
+    (BufferAddress, "BufferAddress", &["BufferAddress"], 't'),
+    (RWBufferAddress, "RWBufferAddress", &["RWBufferAddress"], 'u'),
+    (StructuredBuffer, "StructuredBuffer", &["StructuredBuffer<S0>", "StructuredBuffer<float4>", "StructuredBuffer<uint>"], 't'),
+    (RWStructuredBuffer, "RWStructuredBuffer", &["RWStructuredBuffer<S0>", "RWStructuredBuffer<float4>"], 'u'),
+    (Texture2D, "Texture2D", &["Texture2D", "Texture2D<float4>", "Texture2D<uint4>", "Texture2D<float>"], 't'),
+    (Texture2DArray, "Texture2DArray", &["Texture2DArray", "Texture2DArray<float4>"], 't'),
+    (RWTexture2D, "RWTexture2D", &["RWTexture2D<float4>", "RWTexture2D<uint>"], 'u'),
+    (RWTexture2DArray, "RWTexture2DArray", &["RWTexture2DArray<float4>"], 'u'),
+    (TextureCube, "TextureCube", &["TextureCube", "TextureCube<float4>"], 't'),
+    (TextureCubeArray, "TextureCubeArray", &["TextureCubeArray", "TextureCubeArray<float4>"], 't'),
+    (Texture3D, "Texture3D", &["Texture3D", "Texture3D<float4>"], 't'),
+    (RWTexture3D, "RWTexture3D", &["RWTexture3D<float4>", "RWTexture3D<uint>"], 'u'),
+    (ConstantBufferT, "ConstantBuffer<T>", &["ConstantBuffer<S0>", "ConstantBuffer<S1>"], 'b'),
+    (SamplerState, "SamplerState", &["SamplerState"], 's'),
+    (SamplerComparisonState, "SamplerComparisonState", &["SamplerComparisonState"], 's'),
+    (RaytracingAccelerationStructure, "RaytracingAccelerationStructure", &["RaytracingAccelerationStructure"], 't'),
+    (CBufferBlock, "cbuffer", &["cbuffer"], 'b'),
+];
+
+impl Kind {
+    fn row(self) -> &'static (Kind, &'static str, &'static [&'static str], char) {
+        KINDS.iter().find(|r| r.0 == self).unwrap()
+    }
+    pub fn label(self) -> &'static str {
+        self.row().1
+    }
+    fn from_label(s: &str) -> Option<Kind> {
+        KINDS.iter().find(|r| r.1 == s).map(|r| r.0)
+    }
+    /// "raw and structured buffers" of the property text
+    fn is_raw_or_structured(self) -> bool {
+        matches!(self, ByteAddressBuffer | RWByteAddressBuffer | BufferAddress | RWBufferAddress | StructuredBuffer | RWStructuredBuffer)
+    }
+    fn is_buffer_address(self) -> bool {
+        matches!(self, BufferAddress | RWBufferAddress)
+    }
+    fn is_sampler(self) -> bool {
+        matches!(self, SamplerState | SamplerComparisonState)
+    }
+}
+
+/// One declared global, in declaration order: the only thing the reference model looks at
+#[derive(Clone, Debug, PartialEq)]
+pub struct Entry {
+    pub name: String,
+    /// None = not a bindable resource (then `what` says what it is)
+    pub kind: Option<Kind>,
+    pub what: String,
+    pub array: Option<u32>,
+    pub group: Option<u32>,
+    pub static_sampler: bool,
+}
+
+impl Entry {
+    /// Short class of the construct, used in signatures and histograms
+    fn construct(&self) -> String {
+        match self.kind {
+            Some(k) => format!("{}{}{}", if self.static_sampler { "static " } else { "" }, k.label(), if self.array.is_some() { "[]" } else { "" }),
+            None => self.what.clone(),
+        }
+    }
+    fn to_json(&self) -> Json {
+        Json::obj()
+            .set("name", &self.name)
+            .set("kind", self.kind.map(|k| k.label()).unwrap_or(""))
+            .set("what", &self.what)
+            .set("array", self.array.map(|a| a as i64).unwrap_or(-1))
+            .set("group", self.group.map(|a| a as i64).unwrap_or(-1))
+            .set("static_sampler", self.static_sampler)
+    }
+    fn from_json(j: &Json) -> Entry {
+        let opt = |k: &str| j.get(k).and_then(|v| v.as_i64()).filter(|v| *v >= 0).map(|v| v as u32);
+        Entry {
+            name: j.get_str("name").unwrap_or("").to_string(),
+            kind: Kind::from_label(j.get_str("kind").unwrap_or("")),
+            what: j.get_str("what").unwrap_or("").to_string(),
+            array: opt("array"),
+            group: opt("group"),
+            static_sampler: j.get("static_sampler").and_then(|v| v.as_bool()).unwrap_or(false),
+        }
+    }
+}
+
+// ------------------------------------------------------------------------------------------------
+// refbind - the reference model, written from the property text
+// ------------------------------------------------------------------------------------------------
+
+/// What the property says distinguishes the four target configurations
+#[derive(Clone, Copy, Debug)]
+pub struct Cfg {
+    /// raw and structured buffers take twice the slots; static samplers take none
+    metal: bool,
+    /// buffer addresses enabled (Vulkan + support_buffer_address)
+    buffer_address: bool,
+}
+
+fn cfg_of(t: Tgt) -> Cfg {
+    Cfg {
+        metal: t == Tgt::Msl,
+        buffer_address: t == Tgt::VkBa,
+    }
+}
+
+#[derive(Clone, Copy, PartialEq, Eq, Debug)]
+pub enum Loc {
+    Index(u32),
+    Inline(u32),
+}
+
+impl Loc {
+    fn show(self) -> String {
+        match self {
+            Loc::Index(i) => format!("slot {}", i),
+            Loc::Inline(o) => format!("inline offset {}", o),
+        }
+    }
+    fn to_json(self) -> Json {
+        match self {
+            Loc::Index(i) => Json::obj().set("slot", i),
+            Loc::Inline(o) => Json::obj().set("inline_offset", o),
+        }
+    }
+}
+
+#[derive(Clone, Debug)]
+pub struct ExpBinding {
+    /// index into the entries
+    entry: usize,
+    group: u32,
+    loc: Loc,
+    /// array length (1 without array)
+    count: u32,
+}
+
+#[derive(Clone, Debug, PartialEq, Eq, PartialOrd, Ord)]
+pub struct InlineBlock {
+    group: u32,
+    slot: u32,
+    size: u32,
+}
+
+#[derive(Clone, Debug, Default)]
+pub struct Expected {
+    bindings: Vec<ExpBinding>,
+    inline: Vec<InlineBlock>,
+}
+
+/// Slots one declaration needs on the target: N consecutive slots for an array of N; twice that for raw and
+/// structured buffers on Metal
+fn need(kind: Kind, count: u32, cfg: Cfg) -> u32 {
+    count * if cfg.metal && kind.is_raw_or_structured() { 2 } else { 1 }
+}
+
+pub fn refbind(entries: &[Entry], cfg: Cfg, default_group: u32) -> Expected {
+    let mut next_slot: BTreeMap<u32, u32> = BTreeMap::new();
+    let mut inline_size: BTreeMap<u32, u32> = BTreeMap::new();
+    let mut out = Expected::default();
+    for (i, e) in entries.iter().enumerate() {
+        // non-resource globals take no slot
+        let Some(kind) = e.kind else { continue };
+        // on Metal static samplers take no slot
+        if e.static_sampler && cfg.metal {
+            continue;
+        }
+        // resources without explicit group go to the pipeline's default group
+        let group = e.group.unwrap_or(default_group);
+        let count = e.array.unwrap_or(1);
+        if cfg.buffer_address && kind.is_buffer_address() && e.array.is_none() {
+            // each non-array buffer address takes 8 bytes at a distinct offset of the group's inline constant block
+            let size = inline_size.entry(group).or_insert(0);
+            out.bindings.push(ExpBinding {
+                entry: i,
+                group,
+                loc: Loc::Inline(*size),
+                count,
+            });
+            *size += 8;
+        } else {
+            let next = next_slot.entry(group).or_insert(0);
+            out.bindings.push(ExpBinding {
+                entry: i,
+                group,
+                loc: Loc::Index(*next),
+                count,
+            });
+            *next += need(kind, count, cfg);
+        }
+    }
+    // one inline constant block per group: size = sum, slot follows all other slots of the group
+    for (group, size) in inline_size {
+        out.inline.push(InlineBlock {
+            group,
+            slot: next_slot.get(&group).copied().unwrap_or(0),
+            size,
+        });
+    }
+    out
+}
+
+// ------------------------------------------------------------------------------------------------
+// Observation of the real code
+// ------------------------------------------------------------------------------------------------
+
+#[derive(Clone, Debug)]
+pub struct ObsBinding {
+    name: String,
+    group: u32,
+    loc: Loc,
+    /// descriptor_count of the metadata (path b); None on path a
+    count: Option<Option<u32>>,
+}
+
+#[derive(Clone, Debug, Default)]
+pub struct Observed {
+    bindings: Vec<ObsBinding>,
+    inline: Vec<InlineBlock>,
+}
+
+impl Observed {
+    fn to_json(&self) -> Json {
+        Json::obj()
+            .set(
+                "bindings",
+                Json::Arr(
+                    self.bindings
+                        .iter()
+                        .map(|b| {
+                            let mut j = Json::obj().set("name", &b.name).set("group", b.group).set("location", b.loc.to_json());
+                            if let Some(c) = b.count {
+                                j.put("descriptor_count", c.map(|v| v as i64).unwrap_or(-1));
+                            }
+                            j
+                        })
+                        .collect(),
+                ),
+            )
+            .set(
+                "inline_blocks",
+                Json::Arr(self.inline.iter().map(|b| Json::obj().set("group", b.group).set("slot", b.slot).set("size", b.size)).collect()),
+            )
+    }
+}
+
+fn loc_of(l: rssl::ApiLocation) -> Loc {
+    match l {
+        rssl::ApiLocation::Index(i) => Loc::Index(i),
+        rssl::ApiLocation::InlineConstant(o) => Loc::Inline(o),
+    }
+}
+
+fn pipeline_name(dg: Option<u32>) -> Option<String> {
+    dg.map(|g| format!("P{}", g))
+}
+
+/// The module with pipeline P<dg> selected (no selection without pipeline), as compile() does before it assigns bindings
+fn select(module: &rssl::ir::Module, dg: Option<u32>) -> Result<rssl::ir::Module, String> {
+    let r = guard(|| {
+        let m = module.clone();
+        match pipeline_name(dg) {
+            Some(p) => m.select_pipeline(&p).ok_or(format!("harness: pipeline {} not found", p)),
+            None => Ok(m),
+        }
+    });
+    match r {
+        Ok(r) => r,
+        Err(c) => Err(format!("harness: select_pipeline panicked: {}", c.signature())),
+    }
+}
+
+/// Path (a): the real assign_api_bindings on the type checked module (pipeline already selected)
+fn observe_direct(selected: &rssl::ir::Module, tgt: Tgt) -> Result<Observed, String> {
+    let r = guard(|| {
+        let m = selected.clone();
+        let m = m.assign_api_bindings(&tgt.binding_params());
+        let mut obs = Observed::default();
+        for g in &m.global_registry {
+            if let Some(b) = g.api_slot {
+                obs.bindings.push(ObsBinding {
+                    name: g.name.node.clone(),
+                    group: b.set,
+                    loc: loc_of(b.location),
+                    count: None,
+                });
+            }
+        }
+        for c in &m.cbuffer_registry {
+            if let Some(b) = c.api_binding {
+                obs.bindings.push(ObsBinding {
+                    name: c.name.node.clone(),
+                    group: b.set,
+                    loc: loc_of(b.location),
+                    count: None,
+                });
+            }
+        }
+        for b in &m.inline_constant_buffers {
+            obs.inline.push(InlineBlock {
+                group: b.set,
+                slot: b.api_location,
+                size: b.size_in_bytes,
+            });
+        }
+        obs
+    });
+    match r {
+        Ok(o) => Ok(o),
+        Err(c) => Err(format!("panic:{}", c.signature())),
+    }
+}
+
+/// Path (b): what the caller of compile() gets
+fn observe_metadata(md: &rssl::PipelineDescription) -> Observed {
+    let mut obs = Observed::default();
+    for (gi, g) in md.bind_groups.iter().enumerate() {
+        for b in &g.bindings {
+            obs.bindings.push(ObsBinding {
+                name: b.name.clone(),
+                group: gi as u32,
+                loc: loc_of(b.api_binding),
+                count: Some(b.descriptor_count),
+            });
+        }
+        if let Some(i) = &g.inline_constants {
+            obs.inline.push(InlineBlock {
+                group: gi as u32,
+                slot: i.api_location,
+                size: i.size_in_bytes,
+            });
+        }
+    }
+    obs
+}
+
+// ------------------------------------------------------------------------------------------------
+// Monitors
+// ------------------------------------------------------------------------------------------------
+
+struct Finding {
+    signature: String,
+    summary: String,
+}
+
+/// Monitor 1: field by field equality with refbind
+fn monitor_refbind(entries: &[Entry], tgt: Tgt, dg: Option<u32>, obs: &Observed) -> Option<Finding> {
+    let cfg = cfg_of(tgt);
+    // without pipeline the default group is 0
+    let exp = refbind(entries, cfg, dg.unwrap_or(0));
+    let t = tgt.name();
+    let fail = |sig: String, summary: String| Some(Finding { signature: sig, summary });
+
+    // every observed binding belongs to exactly one declaration
+    for (i, b) in obs.bindings.iter().enumerate() {
+        if obs.bindings[..i].iter().any(|o| o.name == b.name) {
+            return fail(format!("duplicate@{}", t), format!("{} is bound more than once", b.name));
+        }
+        match entries.iter().position(|e| e.name == b.name) {
+            None => return fail(format!("unexpected:unknown-name@{}", t), format!("a binding for {} which was never declared", b.name)),
+            Some(ei) => {
+                if !exp.bindings.iter().any(|x| x.entry == ei) {
+                    let e = &entries[ei];
+                    return fail(
+                        format!("unexpected:{}@{}", e.construct(), t),
+                        format!("{} ({}) must take no slot but got group {} {}", e.name, e.construct(), b.group, b.loc.show()),
+                    );
+                }
+            }
+        }
+    }
+    // every expected binding is there, in the right place
+    let mut last_in_group: BTreeMap<u32, String> = BTreeMap::new();
+    for x in &exp.bindings {
+        let e = &entries[x.entry];
+        let Some(o) = obs.bindings.iter().find(|o| o.name == e.name) else {
+            return fail(format!("missing:{}@{}", e.construct(), t), format!("{} ({}) received no binding", e.name, e.construct()));
+        };
+        if o.group != x.group {
+            return fail(
+                format!("group:{}@{}", e.construct(), t),
+                format!("{} ({}) is in group {} but belongs to group {}", e.name, e.construct(), o.group, x.group),
+            );
+        }
+        if o.loc != x.loc {
+            let sig = match (x.loc, o.loc) {
+                (Loc::Index(_), Loc::Index(_)) => {
+                    format!("slot-after:{}@{}", last_in_group.get(&x.group).map(|s| s.as_str()).unwrap_or("start"), t)
+                }
+                (Loc::Inline(_), Loc::Inline(_)) => format!("inline-offset:{}@{}", e.construct(), t),
+                _ => format!("location-kind:{}@{}", e.construct(), t),
+            };
+            return fail(sig, format!("{} ({}) in group {}: got {}, the property gives {}", e.name, e.construct(), x.group, o.loc.show(), x.loc.show()));
+        }
+        if let Some(c) = o.count {
+            if c != Some(x.count) {
+                return fail(
+                    format!("count:{}@{}", e.construct(), t),
+                    format!("{} ({}) reports descriptor_count {:?}, declared {}", e.name, e.construct(), c, x.count),
+                );
+            }
+        }
+        if let Loc::Index(_) = x.loc {
+            last_in_group.insert(x.group, e.construct());
+        }
+    }
+    // inline constant blocks
+    let mut got = obs.inline.clone();
+    got.sort();
+    for x in &exp.inline {
+        let same_group: Vec<&InlineBlock> = got.iter().filter(|b| b.group == x.group).collect();
+        match same_group.as_slice() {
+            [] => return fail(format!("inline-block-missing@{}", t), format!("group {} has buffer addresses but no inline constant block", x.group)),
+            [b] => {
+                if b.size != x.size {
+                    return fail(format!("inline-block-size@{}", t), format!("inline block of group {} has size {}, the sum is {}", x.group, b.size, x.size));
+                }
+                if b.slot != x.slot {
+                    return fail(
+                        format!("inline-block-slot@{}", t),
+                        format!("inline block of group {} sits at slot {}, the slot after all others is {}", x.group, b.slot, x.slot),
+                    );
+                }
+            }
+            _ => return fail(format!("inline-block-multiple@{}", t), format!("group {} has {} inline constant blocks", x.group, same_group.len())),
+        }
+    }
+    for b in &got {
+        if !exp.inline.iter().any(|x| x.group == b.group) {
+            return fail(format!("inline-block-unexpected@{}", t), format!("group {} has an inline constant block but no buffer address uses it", b.group));
+        }
+    }
+    None
+}
+
+/// Monitor 2: model free invariants per group, from what was observed and what each declaration needs
+fn monitor_invariants(entries: &[Entry], tgt: Tgt, obs: &Observed) -> Option<Finding> {
+    let cfg = cfg_of(tgt);
+    let t = tgt.name();
+    let fail = |sig: String, summary: String| Some(Finding { signature: sig, summary });
+    let mut groups: Vec<u32> = obs.bindings.iter().map(|b| b.group).chain(obs.inline.iter().map(|b| b.group)).collect();
+    groups.sort();
+    groups.dedup();
+    for g in groups {
+        // (start, end, declaration position, name)
+        let mut ranges: Vec<(u32, u32, usize, &str)> = Vec::new();
+        let mut offsets: Vec<(u32, &str)> = Vec::new();
+        for b in obs.bindings.iter().filter(|b| b.group == g) {
+            let Some(pos) = entries.iter().position(|e| e.name == b.name) else { continue };
+            let e = &entries[pos];
+            let Some(kind) = e.kind else { continue };
+            match b.loc {
+                Loc::Index(start) => {
+                    // prefer the reported descriptor count over the declared one
+                    let count = b.count.flatten().unwrap_or(e.array.unwrap_or(1));
+                    ranges.push((start, start + need(kind, count, cfg), pos, &b.name));
+                }
+                Loc::Inline(off) => offsets.push((off, &b.name)),
+            }
+        }
+        ranges.sort();
+        let mut end = 0;
+        for (i, r) in ranges.iter().enumerate() {
+            if r.0 < end {
+                return fail(
+                    format!("invariant:overlap@{}", t),
+                    format!("group {}: {} [{}, {}) overlaps {} [{}, {})", g, r.3, r.0, r.1, ranges[i - 1].3, ranges[i - 1].0, ranges[i - 1].1),
+                );
+            }
+            if r.0 > end {
+                return fail(format!("invariant:gap@{}", t), format!("group {}: slots [{}, {}) before {} belong to nobody", g, end, r.0, r.3));
+            }
+            if i > 0 && ranges[i - 1].2 > r.2 {
+                return fail(
+                    format!("invariant:order@{}", t),
+                    format!("group {}: {} was declared after {} but has the lower slot", g, ranges[i - 1].3, r.3),
+                );
+            }
+            end = r.1;
+        }
+        offsets.sort();
+        let blocks: Vec<&InlineBlock> = obs.inline.iter().filter(|b| b.group == g).collect();
+        if offsets.is_empty() && blocks.is_empty() {
+            continue;
+        }
+        if blocks.len() != 1 {
+            return fail(
+                format!("invariant:inline-block-count@{}", t),
+                format!("group {}: {} buffer addresses at inline offsets but {} inline blocks", g, offsets.len(), blocks.len()),
+            );
+        }
+        let block = blocks[0];
+        for (i, o) in offsets.iter().enumerate() {
+            if i > 0 && offsets[i - 1].0 + 8 > o.0 {
+                return fail(
+                    format!("invariant:inline-overlap@{}", t),
+                    format!("group {}: {} at offset {} overlaps {} at offset {}", g, o.1, o.0, offsets[i - 1].1, offsets[i - 1].0),
+                );
+            }
+            if o.0 + 8 > block.size {
+                return fail(format!("invariant:inline-out-of-block@{}", t), format!("group {}: {} at offset {} is outside the block of {} bytes", g, o.1, o.0, block.size));
+            }
+        }
+        if block.size != 8 * offsets.len() as u32 {
+            return fail(
+                format!("invariant:inline-size@{}", t),
+                format!("group {}: block of {} bytes for {} buffer addresses", g, block.size, offsets.len()),
+            );
+        }
+        if block.slot != end {
+            return fail(
+                format!("invariant:inline-slot@{}", t),
+                format!("group {}: the inline block is at slot {} but the other slots are [0, {})", g, block.slot, end),
+            );
+        }
+    }
+    None
+}
+
+// ------------------------------------------------------------------------------------------------
+// Cases: declarations and their text
+// ------------------------------------------------------------------------------------------------
+
+/// How the explicit group and the (irrelevant) language register index are spelled
+#[derive(Clone, Copy, PartialEq, Eq, Debug)]
+enum Spelling {
+    /// nothing / `: register(spaceN)`
+    Plain,
+    /// `: register(t3)` / `: register(t3, spaceN)`
+    Register(u32),
+    /// nothing / `[[rssl::bind_group(N)]]`
+    Attribute,
+    /// `[[vk::binding(3)]]` / `[[vk::binding(3, N)]]`
+    VkBinding(u32),
+    /// `: register(t3)` plus `[[rssl::bind_group(N)]]`
+    AttributeAndRegister(u32),
+}
+
+#[derive(Clone, Debug)]
+struct ResDecl {
+    kind: Kind,
+    /// (name, array length, spelling of the array length: 0 literal, 1 expression, 2 named constant)
+    declarators: Vec<(String, Option<u32>, u8)>,
+    group: Option<u32>,
+    spelling: Spelling,
+    static_sampler: bool,
+    type_variant: usize,
+    is_const: bool,
+    bindless: bool,
+    namespace: Option<String>,
+}
+
+#[derive(Clone, Debug)]
+enum Decl {
+    Res(ResDecl),
+    /// (flavour 0..6, name)
+    Other(usize, String),
+    /// entry point and pipelines
+    Pipelines,
+}
+
+const OTHER_KINDS: [&str; 6] = [
+    "nonresource:static",
+    "nonresource:static-const",
+    "nonresource:groupshared",
+    "nonresource:plain-constant",
+    "nonresource:struct",
+    "nonresource:function",
+];
+
+fn array_text(len: Option<u32>, how: u8) -> String {
+    match len {
+        None => String::new(),
+        Some(n) => match how {
+            1 => format!("[{} + {}]", n - 1, 1),
+            2 => format!("[k_len{}]", n),
+            _ => format!("[{}]", n),
+        },
+    }
+}
+
+fn render_decl(d: &Decl, out: &mut String, entries: &mut Vec<Entry>) {
+    match d {
+        Decl::Pipelines => {
+            out.push_str("[numthreads(1, 1, 1)]\nvoid main() {}\n");
+            for g in 0..3 {
+                out.push_str(&format!("Pipeline P{} {{ ComputeShader = main; DefaultBindGroup = {}; }}\n", g, g));
+            }
+        }
+        Decl::Other(flavour, name) => {
+            match flavour {
+                0 => out.push_str(&format!("static uint {} = 1;\n", name)),
+                1 => out.push_str(&format!("static const float4 {} = float4(1, 2, 3, 4);\n", name)),
+                2 => out.push_str(&format!("groupshared float4 {}[4];\n", name)),
+                3 => out.push_str(&format!("float4 {};\n", name)),
+                4 => out.push_str(&format!("struct {} {{ float4 a; uint b; }};\n", name)),
+                _ => out.push_str(&format!("float {}(float x) {{ return x + 1.0; }}\n", name)),
+            }
+            entries.push(Entry {
+                name: name.clone(),
+                kind: None,
+                what: OTHER_KINDS[*flavour].to_string(),
+                array: None,
+                group: None,
+                static_sampler: false,
+            });
+        }
+        Decl::Res(r) => {
+            let row = r.kind.row();
+            let reg = row.3;
+            let mut attrs = String::new();
+            let mut annotation = String::new();
+            match (r.spelling, r.group) {
+                (Spelling::Plain, None) | (Spelling::Attribute, None) => {}
+                (Spelling::Plain, Some(g)) => annotation = format!(" : register(space{})", g),
+                (Spelling::Register(i), None) => annotation = format!(" : register({}{})", reg, i),
+                (Spelling::Register(i), Some(g)) => annotation = format!(" : register({}{}, space{})", reg, i, g),
+                (Spelling::Attribute, Some(g)) => attrs = format!("[[rssl::bind_group({})]] ", g),
+                (Spelling::VkBinding(i), None) => attrs = format!("[[vk::binding({})]] ", i),
+                (Spelling::VkBinding(i), Some(g)) => attrs = format!("[[vk::binding({}, {})]] ", i, g),
+                (Spelling::AttributeAndRegister(i), None) => annotation = format!(" : register({}{})", reg, i),
+                (Spelling::AttributeAndRegister(i), Some(g)) => {
+                    attrs = format!("[[rssl::bind_group({})]] ", g);
+                    annotation = format!(" : register({}{})", reg, i);
+                }
+            }
+            if r.bindless {
+                attrs = format!("[[rssl::bindless]] {}", attrs);
+            }
+            if let Some(ns) = &r.namespace {
+                out.push_str(&format!("namespace {} {{ ", ns));
+            }
+            if r.kind == CBufferBlock {
+                let name = &r.declarators[0].0;
+                out.push_str(&format!("{}cbuffer {}{} {{ float4 {}_m0; uint {}_m1; }}", attrs, name, annotation, name, name));
+            } else {
+                let ty = row.2[r.type_variant % row.2.len()];
+                out.push_str(&format!("{}{}{} ", attrs, if r.is_const { "const " } else { "" }, ty));
+                for (i, (name, len, how)) in r.declarators.iter().enumerate() {
+                    if i > 0 {
+                        out.push_str(", ");
+                    }
+                    out.push_str(&format!("{}{}{}", name, array_text(*len, *how), annotation));
+                    if r.static_sampler {
+                        out.push_str(" = StaticSampler { Filter = MIN_MAG_MIP_LINEAR; }");
+                    }
+                }
+                out.push(';');
+            }
+            if r.namespace.is_some() {
+                out.push_str(" }");
+            }
+            out.push('\n');
+            for (name, len, _) in &r.declarators {
+                entries.push(Entry {
+                    name: name.clone(),
+                    kind: Some(r.kind),
+                    what: String::new(),
+                    array: *len,
+                    group: r.group,
+                    static_sampler: r.static_sampler,
+                });
+            }
+        }
+    }
+}
+
+#[derive(Clone, Debug)]
+pub struct Case {
+    pub family: &'static str,
+    pub text: String,
+    pub entries: Vec<Entry>,
+}
+
+fn render_case(family: &'static str, decls: &[Decl]) -> Case {
+    let mut text = String::new();
+    let mut entries = Vec::new();
+    // prelude: types and constants the declarations may refer to (they are globals that take no slot, too)
+    text.push_str("struct S0 { float4 v; uint w; };\nstruct S1 { float4x4 m; };\nstatic const uint k_len1 = 1;\nstatic const uint k_len2 = 2;\nstatic const uint k_len3 = 3;\n");
+    for (name, what) in [("k_len1", 1), ("k_len2", 1), ("k_len3", 1)] {
+        entries.push(Entry {
+            name: name.to_string(),
+            kind: None,
+            what: OTHER_KINDS[what].to_string(),
+            array: None,
+            group: None,
+            static_sampler: false,
+        });
+    }
+    for d in decls {
+        render_decl(d, &mut text, &mut entries);
+    }
+    Case { family, text, entries }
+}
+
+/// The 356 options of one declaration: (kind, array, group, static sampler)
+fn options() -> Vec<(Kind, Option<u32>, Option<u32>, bool)> {
+    let arrays = [None, Some(1), Some(2), Some(3)];
+    let groups = [None, Some(0), Some(1), Some(2)];
+    let mut out = Vec::new();
+    for row in KINDS.iter() {
+        let kind = row.0;
+        for a in arrays {
+            if kind == CBufferBlock && a.is_some() {
+                // a cbuffer block has no array form
+                continue;
+            }
+            for g in groups {
+                out.push((kind, a, g, false));
+                if kind.is_sampler() {
+                    out.push((kind, a, g, true));
+                }
+            }
+        }
+    }
+    out
+}
+
+/// Spellings a declaration admits (static samplers must not carry a language register index; the attribute forms go in front of the declaration)
+fn spelling_for(choice: usize, index: u32, static_sampler: bool) -> Spelling {
+    if static_sampler {
+        return if choice % 2 == 0 { Spelling::Plain } else { Spelling::Attribute };
+    }
+    match choice % 5 {
+        0 => Spelling::Plain,
+        1 => Spelling::Register(index),
+        2 => Spelling::Attribute,
+        3 => Spelling::VkBinding(index),
+        _ => Spelling::AttributeAndRegister(index),
+    }
+}
+
+fn exhaustive_count(opts: usize) -> u64 {
+    1 + opts as u64 + (opts as u64) * (opts as u64)
+}
+
+/// Case `index` of the enumeration of all sequences of length <= 2
+fn exhaustive_case(index: u64, opts: &[(Kind, Option<u32>, Option<u32>, bool)]) -> Case {
+    let n = opts.len() as u64;
+    let picks: Vec<usize> = if index == 0 {
+        vec![]
+    } else if index <= n {
+        vec![(index - 1) as usize]
+    } else {
+        let k = index - 1 - n;
+        vec![(k / n) as usize, (k % n) as usize]
+    };
+    let mut decls: Vec<Decl> = Vec::new();
+    for (pos, p) in picks.iter().enumerate() {
+        let (kind, array, group, static_sampler) = opts[*p];
+        let choice = (index as usize).wrapping_mul(7) + pos * 3;
+        let name = if kind == CBufferBlock { format!("CB{}", pos) } else { format!("g_r{}", pos) };
+        decls.push(Decl::Res(ResDecl {
+            kind,
+            declarators: vec![(name, array, 0)],
+            group,
+            spelling: spelling_for(choice, (index % 6) as u32 + pos as u32, static_sampler),
+            static_sampler,
+            type_variant: 0,
+            is_const: false,
+            bindless: false,
+            namespace: None,
+        }));
+    }
+    // a global that is not a resource in front of / between / behind the declarations (6 cases out of 7)
+    let f = (index % 7) as usize;
+    if f > 0 {
+        let at = ((index / 7) as usize) % (decls.len() + 1);
+        decls.insert(at, Decl::Other(f - 1, format!("n_x{}", f)));
+    }
+    decls.push(Decl::Pipelines);
+    render_case("exhaustive<=2", &decls)
+}
+
+fn random_case(rng: &mut Rng) -> Case {
+    let long = rng.chance(1, 2);
+    let len = if long { rng.range(7, 12) } else { rng.range(3, 6) } as usize;
+    let mut decls: Vec<Decl> = Vec::new();
+    let mut counter = 0;
+    // a bias towards few groups and few kinds makes neighbours in the same group likely
+    let focus_group: Option<Option<u32>> = if rng.chance(1, 3) { Some(if rng.chance(1, 2) { None } else { Some(rng.below(3) as u32) }) } else { None };
+    for _ in 0..len {
+        counter += 1;
+        let kind = KINDS[rng.below(KINDS.len())].0;
+        let static_sampler = kind.is_sampler() && rng.chance(2, 5);
+        let mut group = if rng.chance(2, 5) { None } else { Some(rng.below(3) as u32) };
+        if let Some(fg) = focus_group {
+            if rng.chance(3, 4) {
+                group = fg;
+            }
+        }
+        let spelling = spelling_for(rng.below(10), rng.below(10) as u32, static_sampler);
+        let mut declarators = Vec::new();
+        let n_declarators = if kind != CBufferBlock && matches!(spelling, Spelling::Plain | Spelling::Attribute) && (group.is_none() || spelling == Spelling::Attribute) && rng.chance(1, 8) {
+            2 + rng.below(2)
+        } else {
+            1
+        };
+        for _ in 0..n_declarators {
+            let array = if kind == CBufferBlock || rng.chance(1, 2) { None } else { Some(1 + rng.below(3) as u32) };
+            let name = if kind == CBufferBlock { format!("CB{}", counter) } else { format!("g_r{}", counter) };
+            counter += 1;
+            declarators.push((name, array, rng.below(4) as u8));
+        }
+        let any_array = declarators.iter().any(|d| d.1.is_some());
+        decls.push(Decl::Res(ResDecl {
+            kind,
+            declarators,
+            group,
+            spelling,
+            static_sampler,
+            type_variant: rng.below(4),
+            is_const: kind != CBufferBlock && rng.chance(1, 5),
+            bindless: kind != CBufferBlock && !static_sampler && any_array && rng.chance(1, 6),
+            namespace: if rng.chance(1, 12) { Some(format!("NS{}", counter)) } else { None },
+        }));
+    }
+    // globals that are not resources, anywhere
+    let fillers = rng.below(4);
+    for i in 0..fillers {
+        let at = rng.below(decls.len() + 1);
+        decls.insert(at, Decl::Other(rng.below(6), format!("n_x{}", i)));
+    }
+    // entry point and pipelines: mostly at the end, sometimes earlier
+    let at = if rng.chance(2, 3) { decls.len() } else { rng.below(decls.len() + 1) };
+    decls.insert(at, Decl::Pipelines);
+    render_case(if long { "random 7-12" } else { "random 3-6" }, &decls)
+}
+
+// ------------------------------------------------------------------------------------------------
+// Running one case
+// ------------------------------------------------------------------------------------------------
+
+const DEFAULT_GROUPS: [Option<u32>; 4] = [Some(0), Some(1), Some(2), None];
+
+fn dg_name(dg: Option<u32>) -> String {
+    match dg {
+        Some(g) => g.to_string(),
+        None => "no-pipeline".to_string(),
+    }
+}
+
+fn witness(case: &Case, tgt: Tgt, dg: Option<u32>, path: &str, obs: Option<&Observed>) -> Json {
+    let exp = refbind(&case.entries, cfg_of(tgt), dg.unwrap_or(0));
+    let mut j = Json::obj()
+        .set("text", &case.text)
+        .set("entries", Json::Arr(case.entries.iter().map(|e| e.to_json()).collect()))
+        .set("target", tgt.name())
+        .set("default_group", dg.map(|g| g as i64).unwrap_or(-1))
+        .set("path", path)
+        .set(
+            "expected",
+            Json::obj()
+                .set(
+                    "bindings",
+                    Json::Arr(
+                        exp.bindings
+                            .iter()
+                            .map(|b| {
+                                Json::obj()
+                                    .set("name", &case.entries[b.entry].name)
+                                    .set("construct", case.entries[b.entry].construct())
+                                    .set("group", b.group)
+                                    .set("location", b.loc.to_json())
+                                    .set("count", b.count)
+                            })
+                            .collect(),
+                    ),
+                )
+                .set(
+                    "inline_blocks",
+                    Json::Arr(exp.inline.iter().map(|b| Json::obj().set("group", b.group).set("slot", b.slot).set("size", b.size)).collect()),
+                ),
+        );
+    if let Some(o) = obs {
+        j.put("observed", o.to_json());
+    }
+    j
+}
+
+/// Apply both monitors to one observation
+fn judge(case: &Case, tgt: Tgt, dg: Option<u32>, path: &str, obs: &Observed, report: &mut Report) {
+    report.evaluations += 1;
+    for f in [monitor_refbind(&case.entries, tgt, dg, obs), monitor_invariants(&case.entries, tgt, obs)].into_iter().flatten() {
+        let summary = format!("[{} default group {} via {}] {}", tgt.name(), dg_name(dg), path, f.summary);
+        report.violation(&f.signature, &summary, witness(case, tgt, dg, path, Some(obs)));
+    }
+}
+
+fn observe_and_judge_direct(case: &Case, selected: &rssl::ir::Module, tgt: Tgt, dg: Option<u32>, report: &mut Report) -> Option<Observed> {
+    match observe_direct(selected, tgt) {
+        Ok(obs) => {
+            judge(case, tgt, dg, "assign_api_bindings", &obs, report);
+            Some(obs)
+        }
+        Err(e) if e.starts_with("panic:") => {
+            // the allocator itself gave up: no resource received a range
+            report.evaluations += 1;
+            report.violation(
+                &format!("{}@{}", e.replace("panic:", "panic:assign_api_bindings:"), tgt.name()),
+                &format!("[{} default group {}] assign_api_bindings panicked: {}", tgt.name(), dg_name(dg), e),
+                witness(case, tgt, dg, "assign_api_bindings", None),
+            );
+            None
+        }
+        Err(e) => {
+            report.inconclusive(&e);
+            None
+        }
+    }
+}
+
+fn observe_and_judge_compile(case: &Case, tgt: Tgt, dg: Option<u32>, report: &mut Report) -> Option<Observed> {
+    let mode = match pipeline_name(dg) {
+        Some(p) => Mode::Named(p),
+        None => Mode::NoPipeline,
+    };
+    let outcome = rs::compile_text(&case.text, &Opts::new(tgt, mode));
+    match &outcome {
+        Outcome::Ok(pipes) if pipes.len() == 1 => {
+            let obs = observe_metadata(&pipes[0].metadata);
+            judge(case, tgt, dg, "compile", &obs, report);
+            report.count(&format!("compile:ok:{}", tgt.name()));
+            Some(obs)
+        }
+        Outcome::Ok(p) => {
+            report.count("skipped:compile-pipeline-count");
+            report.notes.push(format!("compile returned {} pipelines for a named pipeline", p.len()));
+            None
+        }
+        // whether compile succeeds at all is C08's business
+        other => {
+            report.count(&format!("skipped:compile-{}:{}", other.class(), tgt.name()));
+            if report.notes.len() < 5 {
+                report.notes.push(format!("compile did not succeed ({}): {}", tgt.name(), other.brief()));
+            }
+            None
+        }
+    }
+}
+
+fn run_case(case: &Case, with_compile: bool, report: &mut Report) {
+    let module = match rs::typecheck_text(&case.text) {
+        Front::Ok(m) => m,
+        Front::Diag(d) => {
+            report.count("skipped:rejected-by-front-end");
+            if report.notes.len() < 5 {
+                report.notes.push(format!("front end rejected a generated program: {} :: {}", d.lines().next().unwrap_or(""), case.text.replace('\n', " ")));
+            }
+            return;
+        }
+        Front::Panic(c) => {
+            report.count("skipped:panic-in-front-end");
+            if report.notes.len() < 5 {
+                report.notes.push(format!("front end panicked on a generated program: {}", c.signature()));
+            }
+            return;
+        }
+    };
+    let bindable = case.entries.iter().filter(|e| e.kind.is_some()).count();
+    if bindable > 0 {
+        report.distinct(hash_str(&case.text));
+    }
+    // what the workload contained
+    report.count(&format!("family:{}", case.family));
+    report.count(&format!("resources-per-case:{:02}", bindable));
+    for e in &case.entries {
+        report.count(&format!("decl:{}", e.construct()));
+        if e.kind.is_some() {
+            report.count(&format!(
+                "decl-shape:array={},group={}",
+                e.array.map(|a| a.to_string()).unwrap_or("none".into()),
+                e.group.map(|a| a.to_string()).unwrap_or("none".into())
+            ));
+        }
+    }
+    for dg in DEFAULT_GROUPS {
+        let selected = match select(&module, dg) {
+            Ok(m) => m,
+            Err(e) => {
+                report.inconclusive(&e);
+                continue;
+            }
+        };
+        for tgt in ALL_TARGETS {
+            let direct = observe_and_judge_direct(case, &selected, tgt, dg, report);
+            if let Some(obs) = &direct {
+                // what the monitors saw
+                let mut per_group: BTreeMap<u32, u32> = BTreeMap::new();
+                for b in &obs.bindings {
+                    *per_group.entry(b.group).or_insert(0) += 1;
+                }
+                for (_, n) in per_group {
+                    report.max("max:bindings-in-one-group", n as u64);
+                    if n >= 2 {
+                        report.count("observed:groups-with-2+-bindings");
+                    }
+                }
+                for b in &obs.inline {
+                    report.count(&format!("observed:inline-block-bytes:{:03}", b.size));
+                }
+                report.count_n(&format!("observed:bindings:{}", tgt.name()), obs.bindings.len() as u64);
+            }
+            if with_compile {
+                let compiled = observe_and_judge_compile(case, tgt, dg, report);
+                // both paths must tell the same story (they are compared to the same model; this is the direct cross check)
+                if let (Some(a), Some(b)) = (&direct, &compiled) {
+                    let mut x: Vec<(String, u32, Loc)> = a.bindings.iter().map(|o| (o.name.clone(), o.group, o.loc)).collect();
+                    let mut y: Vec<(String, u32, Loc)> = b.bindings.iter().map(|o| (o.name.clone(), o.group, o.loc)).collect();
+                    x.sort_by(|p, q| p.0.cmp(&q.0));
+                    y.sort_by(|p, q| p.0.cmp(&q.0));
+                    let mut ia = a.inline.clone();
+                    let mut ib = b.inline.clone();
+                    ia.sort();
+                    ib.sort();
+                    if x == y && ia == ib {
+                        report.count("observed:compile-agrees-with-direct");
+                    } else {
+                        report.count("observed:compile-differs-from-direct");
+                    }
+                }
+            }
+        }
+    }
+}
+
+// ------------------------------------------------------------------------------------------------
+// Workload
+// ------------------------------------------------------------------------------------------------
+
+const COMPILE_EVERY: u64 = 8;
+
+fn run(ctx: &Ctx) -> Report {
+    let opts = options();
+    let total = exhaustive_count(opts.len());
+    let mut report = Report::new();
+
+    // a few cases written out in full, with what the model expects for two of the configurations
+    for (k, case) in [exhaustive_case(total - 1 - 4 * 357, &opts), exhaustive_case(77_777, &opts)]
+        .into_iter()
+        .chain((0..3).map(|i| random_case(&mut Rng::for_case(ctx.seed, 0xA06, i))))
+        .enumerate()
+    {
+        let tgt = if k % 2 == 0 { Tgt::Msl } else { Tgt::VkBa };
+        let mut j = witness(&case, tgt, Some(1), "sample", None);
+        j.put("family", case.family);
+        report.sample(j);
+    }
+
+    // part 1: all sequences of length <= 2
+    let thorough = ctx.tier == Tier::Thorough;
+    let planned: u64 = if thorough { total } else { (total + 9) / 10 };
+    let mut part1 = par::run_cases(ctx, planned, |i, report| {
+        let index = if thorough {
+            i
+        } else {
+            // one index of every block of 10, chosen by the seed
+            10 * i + Rng::for_case(ctx.seed, 0xE06, i).below(10) as u64
+        };
+        if index >= total {
+            report.count("exhaustive:sample-index-past-the-end");
+            return;
+        }
+        let case = exhaustive_case(index, &opts);
+        run_case(&case, index % COMPILE_EVERY == 0, report);
+    });
+    let ran1 = part1.counters.get("cases_run").copied().unwrap_or(0);
+    if thorough {
+        part1.exhaustive = Some(ran1 == total);
+    }
+    part1.notes.push(format!("sequences of length <= 2: {} of {} enumerated ({} options per declaration)", ran1, total, opts.len()));
+    report.merge(part1);
+
+    // part 2: random sequences of length 3-12
+    let n_random = ctx.tier.pick(8_000, 200_000);
+    let part2 = par::run_cases(ctx, n_random, |i, report| {
+        let mut rng = Rng::for_case(ctx.seed, 0xA06, i);
+        let case = random_case(&mut rng);
+        run_case(&case, i % COMPILE_EVERY == 0, report);
+    });
+    report.merge(part2);
+
+    // the workload must consist of accepted programs and contain compile() observations
+    let cases_run = report.counters.get("cases_run").copied().unwrap_or(0);
+    let rejected = report.counters.get("skipped:rejected-by-front-end").copied().unwrap_or(0) + report.counters.get("skipped:panic-in-front-end").copied().unwrap_or(0);
+    if rejected * 20 > cases_run {
+        report.inconclusive(&format!("{} of {} generated programs were not accepted by the front end", rejected, cases_run));
+    }
+    let compiled: u64 = report.counters.iter().filter(|(k, _)| k.starts_with("compile:ok:")).map(|(_, v)| *v).sum();
+    // every 8th case x 16 configurations; at least half of them must have been observed
+    if compiled < cases_run / COMPILE_EVERY * 16 / 2 {
+        report.inconclusive(&format!("only {} successful compile() observations in {} cases", compiled, cases_run));
+    }
+    // the generated programs are well formed: compile() failing on more than 2% of them hides the metadata from the monitors
+    let not_compiled: u64 = report.counters.iter().filter(|(k, _)| k.starts_with("skipped:compile-")).map(|(_, v)| *v).sum();
+    if not_compiled * 50 > compiled + not_compiled {
+        report.inconclusive(&format!("compile() did not succeed on {} of {} generated programs x configurations", not_compiled, compiled + not_compiled));
+    }
+    report
+}
+
+// ------------------------------------------------------------------------------------------------
+// Replay of one witness
+// ------------------------------------------------------------------------------------------------
+
+fn replay(_ctx: &Ctx, w: &Json) -> Report {
+    let mut report = Report::new();
+    let Some(text) = w.get_str("text") else {
+        report.inconclusive("witness has no text");
+        return report;
+    };
+    let entries: Vec<Entry> = w.get("entries").and_then(|e| e.as_arr()).map(|a| a.iter().map(Entry::from_json).collect()).unwrap_or_default();
+    let case = Case {
+        family: "replay",
+        text: text.to_string(),
+        entries,
+    };
+    let tgt = Tgt::from_name(w.get_str("target").unwrap_or(""));
+    let dg = w.get("default_group").and_then(|v| v.as_i64()).filter(|v| *v >= 0).map(|v| v as u32);
+    let path = w.get_str("path").unwrap_or("assign_api_bindings");
+    if path == "compile" {
+        if observe_and_judge_compile(&case, tgt, dg, &mut report).is_none() {
+            report.inconclusive("compile did not succeed on the witness");
+        }
+    } else {
+        match rs::typecheck_text(&case.text) {
+            Front::Ok(m) => match select(&m, dg) {
+                Ok(selected) => {
+                    observe_and_judge_direct(&case, &selected, tgt, dg, &mut report);
+                }
+                Err(e) => report.inconclusive(&e),
+            },
+            Front::Diag(d) => report.inconclusive(&format!("front end rejects the witness: {}", d.lines().next().unwrap_or(""))),
+            Front::Panic(c) => report.inconclusive(&format!("front end panics on the witness: {}", c.signature())),
+        }
+    }
+    report
+}
